@@ -55,9 +55,42 @@ def atag(df: dict, d: int) -> str:
     return f"a{df.get('tagc', d)}" if df["kind"] == "plain" else f"a9{df['group']}"
 
 
-def for_driver(case: dict) -> dict:
-    """The case as the Lean driver wants it (definitions annotated with their first node's tag)."""
-    return dict(case, defs=[dict(df, atag=atag(df, d)) for d, df in enumerate(case["defs"])])
+def for_driver(case: dict, window: int | None) -> dict:
+    """The case as the Lean driver wants it: definitions annotated with their first node's tag, and the measured
+    environment parameter `window` (see `superset_window`)."""
+    return dict(case, defs=[dict(df, atag=atag(df, d)) for d, df in enumerate(case["defs"])], window=window)
+
+
+def superset_window(scratch: Path) -> int | None:
+    """Environment probe.  `Workflow.construct` hashes the temporaries `subset_vals` of its superset-of-lazy search with one
+    shared id-keyed memo (`hash_cache`); when a temporary reuses the id of a freed one it is given that one's stale hash
+    and cannot match.  Returns the number k such that only the first k candidate key sets can hit (CPython 3.12: 2), or
+    None when a hit is still found at the fourth candidate.  The Lean machine takes this number as a parameter."""
+    from pydra.engine.workflow import Workflow
+
+    mod = load_defs([{"kind": "plain", "tagc": 0, "split": False}], scratch, f"probe{os.getpid()}_{next(_uid)}")
+    W = mod.D0
+    base = dict(x=1, y=2, n=1, b=False)
+    # candidate key sets {y,n,b}, {x,n,b}, {x,y,n,b}: subsets of the request's keys whose cached values do not match it
+    decoys = [(["x"], {"y": 91}), (["y"], {"x": 92}), ([], {"x": 93})]
+
+    def size():
+        return sum(len(l3) for l2 in Workflow._constructed_cache.values() for l3 in l2.values())
+
+    try:
+        for k in range(1, len(decoys) + 2):
+            Workflow.clear_cache()
+            for lz, over in decoys[: k - 1]:
+                Workflow.construct(W(**{**base, **over}), lazy=lz)
+            Workflow.construct(W(**base), lazy=["x", "y"])  # key set {n,b}: the k-th candidate, and it matches
+            before = size()
+            Workflow.construct(W(**base))  # a superset hit inserts nothing; a miss constructs and inserts
+            if size() != before:
+                return k - 1
+        return None
+    finally:
+        Workflow.clear_cache()
+        sys.modules.pop(mod.__name__, None)
 
 
 def gen_source(defs: list[dict], uid: str) -> str:
